@@ -306,13 +306,27 @@ Definition check_rect (p : obs) (edges : bool) (args res : list Z) : list (tag *
   | _, _ => [(T_parse, false)]
   end.
 
-Definition check_circ (p : obs) (edges : bool) (args res : list Z) : list (tag * bool) :=
+(* The circle metric is evaluated by the implementation in the scalar type (squared distances, a division for the nearest point of an edge):
+   an element whose exact squared distance from the centre is within a relative 2^-20 (f32) / 2^-49 (f64) of radius_2 may be reported either
+   way.  Required: everything inside the circle of radius_2 * (1 - eps); allowed: everything inside radius_2 * (1 + eps) (plus the documented
+   tangency borderline for edges); no duplicates. *)
+Definition check_circ (f32 : bool) (p : obs) (edges : bool) (args res : list Z) : list (tag * bool) :=
   match args, counted res with
   | [cx; cy; r2], Some got =>
       match with_points p [cx; cy], decode r2 with
       | Some (pts, [c], em), Some (rm, re) =>
+          let k := if f32 then 20%Z else 49%Z in
+          let r_lo := ((rm * (Z.shiftl 1 k - 1))%Z, (re - 2 * em - k)%Z) in
+          let r_hi := ((rm * (Z.shiftl 1 k + 1))%Z, (re - 2 * em - k)%Z) in
           let r2' := (rm, (re - 2 * em)%Z) in
-          [(T_shape, if edges then edges_in_circle_ok p pts c r2' got else vertices_in_circle_ok p pts c r2' got)]
+          let n := if edges then o_ne p else nV p in
+          let inside (r : dy) (x : nat) : bool :=
+            if edges then edge_meets_circle c r (eorg p pts (2 * x)) (edst p pts (2 * x)) else in_circle c r (pos pts x) in
+          let borderline (x : nat) : bool := edges && edge_circle_borderline c r2' (eorg p pts (2 * x)) (edst p pts (2 * x)) in
+          [(T_shape, (if edges then edges_in_circle_ok p pts c r2' got else vertices_in_circle_ok p pts c r2' got)
+                     || (nodup_nat got
+                         && forallb (fun x => (x <? n) && (inside r_hi x || borderline x)) got
+                         && all_below n (fun x => negb (inside r_lo x) || borderline x || memb x got)))]
       | _, _ => [(T_parse, false)]
       end
   | _, _ => [(T_parse, false)]
@@ -845,8 +859,8 @@ Definition check_op (c : cfg) (p : obs) (op : Z) (args res : list Z) (n : obs) (
   else if (op =? OP_nn)%Z then match args with [x; y] => check_nn p x y res | _ => [(T_parse, false)] end
   else if (op =? OP_vrect)%Z then check_rect p false args res
   else if (op =? OP_erect)%Z then check_rect p true args res
-  else if (op =? OP_vcirc)%Z then check_circ p false args res
-  else if (op =? OP_ecirc)%Z then check_circ p true args res
+  else if (op =? OP_vcirc)%Z then check_circ (c_f32 c) p false args res
+  else if (op =? OP_ecirc)%Z then check_circ (c_f32 c) p true args res
   else if (op =? OP_hull)%Z then check_hull p res
   else if (op =? OP_vor)%Z then check_vor c p res
   else if (op =? OP_bary)%Z then check_weights c p false args res
